@@ -246,7 +246,7 @@ def loop_requests(ctx, quick, k):
     # the instance loop of pass 1 (ReadData1) on token sequences: ids, `=`, known / unknown keywords, records, `;`, ENDSEC
     # and its prefixes, strings holding `;`, comments, `!`, `,`.  Domain of the model: no record that starts with `(` or `&`
     # right after `=` (external mappings / SCOPE are outside the skeleton), each id at most once.
-    toks = [b"#1", b"#2", b"=", b"POINT", b"NOPE", b"(1.,2.)", b";", b" ", b"ENDSEC", b"END", b"E", b"'a;'", b"/*c*/", b"!", b","]
+    toks = [b"#1", b"#2", b"=", b"POINT", b"NOPE", b"(1.,2.)", b";", b" ", b"ENDSEC", b"END", b"E", b"'a;'", b"/*c*/", b"!", b",", b"&SCOPE", b"&"]
 
     def in_domain(t):
         if t.count(b"#1") > 1 or t.count(b"#2") > 1:
